@@ -295,8 +295,8 @@ def lamps(ctx, rule="R-LAMP"):
     data = ev.env.get("data")
     status = ("p", "status_dic")
     def leaf(s):
-        if s[0] == "item" and s[1][0] == "sub" and s[1][1][0] == "dict" and s[1][2][0] == "sub" and is_const(s[1][2][2]):
-            return BV.input("%s_%s" % ("lamp" if s[2] == 0 else "flash", s[1][2][2][1]), 2)
+        if s[0] == "sub" and is_const(s[2]) and s[2][1] in (0, 1) and s[1][0] == "sub" and s[1][1][0] == "dict" and s[1][2][0] == "sub" and is_const(s[1][2][2]):
+            return BV.input("%s_%s" % ("lamp" if s[2][1] == 0 else "flash", s[1][2][2][1]), 2)
         return None
     be = BitEval(leaf)
     if data is None or data[0] != "list" or len(data[1]) != 2:
